@@ -11,12 +11,12 @@ LEVEL = "exploration"
 TECHNIQUE = "online-recorded callback trace checked by a step automaton; agent_statistics keys vs expected time list"
 RULE = ("lattice start<=stop in -2..6 (integers, incl. stop=0) x dt in {1,.5,.25,.2,.1} (plus dt=1/n for n in 3,7,49,93,105,186,... on short ranges) x populations of 0-6 agents of 1-2 types "
         "x collect on/off x scripted creation/deletion in begin_round/end_round and from inside act() (an agent deletes itself, an earlier or a later agent, or creates one: only agents alive throughout the step are judged there); three drivers: Model.run, bptk.run_scenarios on "
-        "1-3 scenarios of one manager (threads), externally driven Model.run_step. distinct_nontrivial = distinct "
+        "1-3 scenarios of one manager (threads), externally driven Model.run_step, and a bptk session (begin_session / run_step) over two abm managers that own a scenario of the same name (one complete step per call and model, none for scenarios outside the session). distinct_nontrivial = distinct "
         "(driver, start, stop, dt, collect, has-population-change) combinations with at least 2 steps and 1 agent.")
 ASSUMPTIONS = ["run specs are integers set through run_specs/configure as the scenario loader does (Model(starttime=..) stores floats, which range() rejects: API precondition, not judged)",
                "for a population change made inside act() the statement is read as: every agent alive before and after the step acts exactly once, in creation order; agents deleted or created inside the step may act at most once",
                "time is compared with round+step*dt up to 1e-9"]
-REQUIRED = {"steps_observed": 2000, "acts_observed": 2000, "collects_observed": 1000, "steps_with_population_change_inside_act": 50}
+REQUIRED = {"session_calls": 20, "steps_observed": 2000, "acts_observed": 2000, "collects_observed": 1000, "steps_with_population_change_inside_act": 50}
 BUDGET_S = {"quick": 100, "thorough": 900}
 DTS = ["1", "0.5", "0.25", "0.2", "0.1"]
 RECIP = [3, 7, 93, 105, 49, 186, 99, 117, 123, 198, 210, 211, 6, 9, 12, 100, 1000]
@@ -57,6 +57,12 @@ def gen_cases(tier, seed):
                             script.setdefault("act", {}).setdefault(k, {}).setdefault(str(actor), []).append(op)
                     cases.append(dict(start=s, stop=e, dt=dt, collect=collect, driver=driver, n_agents=n_agents,
                                       script=script, changes=changes, nscen=rng.randint(1, 3)))
+    # externally driven through a bptk session over TWO abm managers that own a scenario of the same name: one step per call and model
+    for (s_, e_) in ((0, 3), (1, 4)):
+        for dt in ("1", "0.5"):
+            for n_agents in (1, 3):
+                cases.append(dict(start=s_, stop=e_, dt=dt, collect=True, driver="session", n_agents=n_agents, script={"begin": {}, "end": {}}, changes=False, nscen=1,
+                                  calls=rng.randint(2, 4)))      # never more calls than the session has steps (start..stop)
     # dt = 1/n for n that are not exact in binary (1/dt computed in floating point may fall just below n): all three drivers
     for n in RECIP if tier == "thorough" else RECIP[:6]:
         for (s, e) in ((0, 1), (3, 4), (-1, 0)) if tier == "thorough" else ((0, 1), (3, 4)):
@@ -176,6 +182,7 @@ def run_case(case):
     # interleaved creation order of the two types (a b a b ...), so that "creation order" differs from "grouped by type"
     agents = [{"name": "ab"[i % 2], "count": 1} for i in range(case["n_agents"])]
     logs = []
+    session_logs = []
     try:
         if case["driver"] == "run":
             m = abm.new_model(case["start"], case["stop"], dt, script=case["script"], agents=agents)
@@ -187,6 +194,29 @@ def run_case(case):
             for (r, s, t) in steps:
                 m.scheduler.run_step(m, r, s, None, case["collect"])
             logs.append((m.log, m.data_collector.agent_statistics, case["collect"]))
+        elif case["driver"] == "session":
+            from BPTK_Py import bptk
+            cfg = {"runspecs": {"starttime": case["start"], "stoptime": case["stop"], "dt": dt}, "properties": {}, "agents": agents}
+            b = bptk()
+            try:
+                for mg in ("smNorth", "smSouth"):
+                    base = abm.LogModel(name="abm", scheduler=abm.SimultaneousScheduler(), data_collector=abm.LogCollector())
+                    b.register_scenario_manager({mg: {"type": "abm", "model": base, "scenarios": {"base": cfg, "other_" + mg: cfg}}})
+                b.begin_session(scenarios=["base"], scenario_managers=["smNorth", "smSouth"], agents=["a"], agent_states=["active"], starttime=float(case["start"]), dt=dt)
+                for _ in range(case["calls"]):
+                    b.run_step()
+                counters["session_calls"] = counters.get("session_calls", 0) + case["calls"]
+                for mg in ("smNorth", "smSouth"):
+                    for nm, sc in b.scenario_manager_factory.scenario_managers[mg].scenarios.items():
+                        begins = [(e[2], e[3], e[1]) for e in sc.log if e[0] == "begin"]
+                        want = case["calls"] if nm == "base" else 0
+                        if len(begins) != want or any(b2[2] <= b1[2] for b1, b2 in zip(begins, begins[1:])):
+                            return dict(verdict="violated", counters=counters, mech="session-step-count",
+                                        witness=dict(manager=mg, scenario=nm, run_step_calls=case["calls"], steps_executed=begins, case=case))
+                        if nm == "base":
+                            session_logs.append((sc.log, begins))
+            finally:
+                b.destroy()
         else:
             from BPTK_Py import bptk
             base = abm.LogModel(name="abm", scheduler=abm.SimultaneousScheduler(), data_collector=abm.LogCollector())
@@ -210,6 +240,13 @@ def run_case(case):
         import traceback
         return dict(verdict="violated", counters=counters, mech="exception:" + type(e).__name__,
                     witness=dict(case=case, error=traceback.format_exc()[-700:]))
+    for (log, begins) in session_logs:
+        # the steps a session executed (one per call, checked above) must each be a complete step: every agent handles and acts once
+        w, st = check_log(log, begins, True)
+        counters["steps_observed"] = counters.get("steps_observed", 0) + st["steps"]
+        counters["acts_observed"] = counters.get("acts_observed", 0) + st["acts"]
+        if w is not None:
+            return dict(verdict="violated", counters=counters, mech=w["kind"], witness=dict(first=w, case=case, driver="session"))
     for (log, stats_keys, collect) in logs:
         w, st = check_log(log, steps, collect)
         counters["steps_observed"] = counters.get("steps_observed", 0) + st["steps"]
